@@ -42,6 +42,18 @@ def stall_points():
     return pts
 
 
+def instruction_stall_points():
+    import jsonrpclib.threadpool as tp
+    pts = []
+    for qual, off in inject.instruction_points(tp):
+        for fn, roles in RUN_FUNCS.items():
+            if qual.endswith(fn):
+                for role in roles:
+                    for k in (1, 2):
+                        pts.append({"qualname": qual, "offset": off, "role": role, "k": k})
+    return pts
+
+
 def setup():
     import jsonrpclib.threadpool as tp
     ok = poolmon.install_queue_shim()
@@ -74,8 +86,11 @@ def run_one(ctx, prop, inj, prog, mode, seed, plan=None, p=0.0, probe=True):
     ctx.count("events", len(events))
     ctx.count("mode:" + mode)
     if plan is not None and inj.hits > hits0:
-        ctx.count("stall-points-hit")
-        ctx.cell("stall", plan["qualname"].split(".")[-1], plan["line"], plan["role"])
+        if "offset" in plan:
+            ctx.count("instruction-stall-points-hit")
+        else:
+            ctx.count("stall-points-hit")
+            ctx.cell("stall", plan["qualname"].split(".")[-1], plan["line"], plan["role"])
     ctx.cell("pool", "max%d" % prog["max"], "min%d" % prog["min"], "enq%d" % len(prog["enqueuers"]))
     if run.error:
         ctx.count("controller-errors")
@@ -123,7 +138,7 @@ def run_one(ctx, prop, inj, prog, mode, seed, plan=None, p=0.0, probe=True):
     return events, results, run
 
 
-def run(ctx, prop, focus, n_hist, n_stall, stall_programs=1):
+def run(ctx, prop, focus, n_hist, n_stall, stall_programs=1, n_istall=0):
     inj, ok = setup()
     if not ok:
         ctx.unsure("the pool module no longer looks up `queue` at call time: MonitoredQueue not attached")
@@ -157,6 +172,18 @@ def run(ctx, prop, focus, n_hist, n_stall, stall_programs=1):
             prog = poolmon.gen_program(rng, focus)
             plan = dict(pt, budget=rng.choice([20, 60, 150, 400]), cap=0.03)
             run_one(ctx, prop, inj, prog, "stall", rng.randrange(1 << 30), plan=plan)
+    # 3. instruction-level stall sweep (preemption inside a source line, e.g. between the load and the store of `x += 1`)
+    ipts = instruction_stall_points()
+    ctx.counters["instruction-stall-points-enumerated"] = len(ipts)
+    imine = [pt for i, pt in enumerate(ipts) if ctx.mine(i)]
+    rng.shuffle(imine)
+    for pt in imine[:n_istall]:
+        if ctx.time_left() < 5:
+            ctx.unsure("time budget exhausted during the instruction-level sweep")
+            break
+        prog = poolmon.gen_program(rng, focus)
+        plan = dict(pt, budget=rng.choice([20, 60, 150, 400]), cap=0.03)
+        run_one(ctx, prop, inj, prog, "istall", rng.randrange(1 << 30), plan=plan)
     snap = inj.snapshot()
     ctx.counters["monitored-lines-executed"] = snap["lines"]
     ctx.counters["program-points-seen"] = snap["points_seen"]
